@@ -24,6 +24,8 @@ static rec_t got[MAXREC], want[MAXREC];
 static int ngot, nwant;
 static unsigned long tok_counter;
 static int check_indices;
+static int rec_overflow_ok, rec_extra;          /* see record() */
+static uint64_t rec_extra_digest;
 
 static uint64_t fnv(const void *p, size_t n) { const unsigned char *b = p; uint64_t h = 1469598103934665603ULL; for (size_t i = 0; i < n; i++) { h ^= b[i]; h *= 0x100000001b3ULL; } return h; }
 
@@ -44,8 +46,18 @@ static void *record(int h, spif_charptr_t buff, void *state)
         if (simacc_ctx_depth() >= simacc_ctx_capacity()) sim_fail("INVARIANT(ctx-index<capacity)", "context stack index %d with capacity %d", simacc_ctx_depth(), simacc_ctx_capacity());
         if (simacc_fstate_depth() >= simacc_fstate_capacity()) sim_fail("INVARIANT(file-index<capacity)", "file stack index %d with capacity %d", simacc_fstate_depth(), simacc_fstate_capacity());
     }
-    if (ngot >= MAXREC) sim_skip("too-many-handler-calls");
     if (!buff) sim_fail("MISMATCH(line-null)", "handler %d was called without a line (NULL)", h);
+    if (ngot >= MAXREC) {
+        /* more calls than the record holds.  Where the calls are compared one by one (C09) the run is given up; where only their number
+           and a digest are used (C11: a 255-deep self-including file makes thousands) they are folded in and the run goes on, so that the
+           way back -- 255 closes, the census, the ledger -- is still judged */
+        if (!rec_overflow_ok) sim_skip("too-many-handler-calls");
+        n = strlen((const char *)buff);
+        rec_extra_digest ^= (uint64_t)h * 31 + (buff[0] == SPIFCONF_BEGIN_CHAR ? 1 : buff[0] == SPIFCONF_END_CHAR ? 2 : 0); rec_extra_digest *= 0x100000001b3ULL;
+        rec_extra_digest ^= fnv(buff, n); rec_extra_digest *= 0x100000001b3ULL;
+        rec_extra++;
+        return (void *)(uintptr_t)(++tok_counter);
+    }
     r = &got[ngot++];
     n = strlen((const char *)buff);
     r->h = h; r->sin = (unsigned long)(uintptr_t)state;
@@ -68,7 +80,7 @@ static char ctxname[MAXCTX][24];
 static int ctxh[MAXCTX];           /* handler index, -1 = built-in null handler */
 static int nctx;                   /* ids 0..nctx-1 (0 = null) */
 
-void conf_reset_mirror(void) { memset(stk, 0, sizeof(stk)); depth = 0; nctx = 1; strcpy(ctxname[0], "null"); ctxh[0] = -1; ngot = nwant = 0; tok_counter = 0; }
+void conf_reset_mirror(void) { memset(stk, 0, sizeof(stk)); depth = 0; nctx = 1; strcpy(ctxname[0], "null"); ctxh[0] = -1; ngot = nwant = 0; tok_counter = 0; rec_extra = 0; rec_extra_digest = 0; }
 void conf_register(int count, int override_null)
 {
     char nm[24];
@@ -287,6 +299,9 @@ void conf_env_setup(const plan_t *p)
     setenv("HOME", "/home/u", 1); setenv("V1", "val-one", 1); setenv("EMPTY", "", 1); setenv("LONG_name_9", "L", 1);
     if (v1 > 0 && v1 <= 70000) { char *b = malloc((size_t)v1 + 1); memset(b, 'w', (size_t)v1); b[v1] = 0; setenv("V1", b, 1); free(b); probe_hit("long_env_value"); }
     if (hl > 0 && hl <= 70000) { char *b = malloc((size_t)hl + 3); b[0] = '/'; memset(b + 1, 'h', (size_t)hl); b[hl + 1] = 0; setenv("HOME", b, 1); free(b); probe_hit("long_home"); }
+    { static const char *mv[] = { NULL, "`echo pwned`", "%exec(echo pwned)", "$V1", "~", "a'b", "x\\", "two  words", "%get(k1)" };
+      long em = plan_get(p, "env.meta", 0);
+      if (em >= 1 && em <= 8) { setenv("V1", mv[em], 1); probe_hit("environment_value_with_metacharacters"); } }
     if (td == 1) setenv("TMPDIR", "/tmp", 1);
     else if (td == 4) { setenv("TMP", "/tmp", 1); probe_hit("tmp_variable_only"); }                 /* the second choice, with the first one unset */
     else if (td == 5) { setenv("TMP", "/nonexistent", 1); setenv("TMPDIR", "/tmp", 1); }
@@ -307,9 +322,10 @@ uint64_t conf_trace_digest(int from)
 {
     uint64_t h = 1469598103934665603ULL;
     for (int i = from; i < ngot; i++) { h ^= (uint64_t)got[i].h * 31 + (uint64_t)got[i].kind; h *= 0x100000001b3ULL; h ^= got[i].thash; h *= 0x100000001b3ULL; h ^= got[i].sin - (from ? got[from].sout - 1 : 0); h *= 0x100000001b3ULL; }
-    return h;
+    return h ^ rec_extra_digest;
 }
-int conf_trace_count(void) { return ngot; }
+int conf_trace_count(void) { return ngot + rec_extra; }
+void conf_allow_record_overflow(int on) { rec_overflow_ok = on; }
 void conf_set_index_checks(int on) { check_indices = on; }
 
 static int compare_quiet;
